@@ -44,17 +44,18 @@ type snapRec struct {
 }
 
 type concState struct {
-	or        concOracles
-	stable    []uint32
-	own       map[int][]uint32 // rows inserted (and committed) by each thread, still live
-	perBlock  map[uint32][]*blockCommit
-	cur       map[int]map[uint32]*blockCommit // thread -> block -> entry being committed
-	holding   map[int]map[uint32]bool         // thread -> blocks whose write latch it took for a commit and has not released yet
-	latchStep map[int]map[uint32]int          // thread -> block -> scheduler step at which it was released to take the write latch
-	recorderBy int                           // 1 + id of the thread whose Snapshot call has its recorder installed (0 = none)
-	relay     *chunkCounter                   // C06: logger of the channel replica
-	snapBlock int                             // block the snapshotter thread is reading (-1 = none)
-	snaps     []*snapRec
+	or           concOracles
+	stable       []uint32
+	own          map[int][]uint32 // rows inserted (and committed) by each thread, still live
+	perBlock     map[uint32][]*blockCommit
+	cur          map[int]map[uint32]*blockCommit // thread -> block -> entry being committed
+	holding      map[int]map[uint32]bool         // thread -> blocks whose write latch it took for a commit and has not released yet
+	latchStep    map[int]map[uint32]int          // thread -> block -> scheduler step at which it was released to take the write latch
+	recorderFile *SimFile                        // destination of that call
+	recorderBy   int                             // 1 + id of the thread whose Snapshot call has its recorder installed (0 = none)
+	relay        *chunkCounter                   // C06: logger of the channel replica
+	snapBlock    int                             // block the snapshotter thread is reading (-1 = none)
+	snaps        []*snapRec
 	// replicas
 	ch          commit.Channel
 	queue       []int // deliverAt step per commit in the channel, FIFO
